@@ -427,6 +427,56 @@ func (g *gen) adversarial() {
 	g.checkAll(ks, 1)
 }
 
+// bandedWindow: ascending keys whose offsets lie in different 32GB bands (different OffsetHigher
+// bytes under 5BytesOffset; one band only with 4-byte offsets), then late keys that still fall inside
+// the 128-entry look-back window, so that the in-window insertion has to move entries together with
+// their parallel high-byte slots; every key is read back afterwards.
+func (g *gen) bandedWindow(cases int) {
+	bands := maxOff() >> 32
+	for c := 0; c < cases; c++ {
+		opResetCm()
+		var ks []uint64
+		cnt := 3 + g.r.Intn(12)
+		if c%5 == 4 {
+			cnt = 130 + g.r.Intn(80) // look-back index above 0
+		}
+		k := uint64(100 + g.r.Intn(1000))
+		for i := 0; i < cnt; i++ {
+			k += uint64(2 + g.r.Intn(5))
+			ks = append(ks, k)
+			off := (g.r.U64()%bands)<<32 | uint64(8+i)
+			opSet(k, off, int32(100+i))
+			if i >= 2 && g.r.Chance(1, 3) {
+				back := 1 + g.r.Intn(min(i-1, 126))
+				kk := ks[len(ks)-1-back] - 1
+				if !setKeys[kk] {
+					ks = append(ks, kk)
+					opSet(kk, (g.r.U64()%bands)<<32|uint64(5000+i), int32(3000+i))
+					sortLast(ks)
+				}
+			}
+		}
+		for _, kk := range ks {
+			opGet(kk)
+		}
+		opVisit()
+	}
+}
+
+// sortLast moves the last element of an otherwise ascending slice into place
+func sortLast(ks []uint64) {
+	for i := len(ks) - 1; i > 0 && ks[i-1] > ks[i]; i-- {
+		ks[i-1], ks[i] = ks[i], ks[i-1]
+	}
+}
+
+func min(a, b int) int {
+	if a < b {
+		return a
+	}
+	return b
+}
+
 // one run that crosses `batch` entries in a single section
 func (g *gen) bigRun() {
 	opResetCm()
@@ -475,6 +525,7 @@ func (g *gen) bigRun() {
 }
 
 func (g *gen) nmCase(kind string, quirks bool) {
+	opResetCm() // case boundary for ./check (replays are cut at the last line starting with `reset`)
 	opNReset(kind)
 	keys := []uint64{3, 4, 5, 9, 1 << 33, 77, 2}
 	live := map[uint64]bool{}
@@ -541,6 +592,7 @@ func generate(a *hx.Args) {
 	}
 	g.randomShort(a.N(120))
 	g.adversarial()
+	g.bandedWindow(a.N(24))
 	aliasCases()
 	for i := 0; i < a.N(40); i++ {
 		g.nmCase([]string{"mem", "ldb"}[i%2], i%4 >= 2)
